@@ -85,7 +85,9 @@ def run(tier, seed):
     cases = [("sage_joint", "sage", "joint", 2, 2, 3), ("sage_product3", "sage", "product", 3, 1, 2),
              ("pfi_joint", "pfi", "joint", 3, 2, 3), ("pfi_product", "pfi", "product", 2, 2, 2),
              ("batch_m3", "batch", "joint", 2, 1, 3), ("batch_m2n2", "batch", "joint", 2, 2, 2),
-             ("batch_prod", "batch", "product", 3, 1, 2)]
+             ("batch_prod", "batch", "product", 3, 1, 2),
+             # several inner samples with the product strategy: every inner sample draws its own row per feature
+             ("sage_product3n2", "sage", "product", 3, 2, 2)]
     if not quick:
         cases += [("sage_joint3", "sage", "joint", 3, 1, 3), ("sage_product", "sage", "product", 2, 1, 3)]
     for (cfg, mode, strat, d, n, m) in cases:
